@@ -33,7 +33,7 @@ Proof.
 Qed.
 
 Lemma stride_spec k : 1 <= k -> forall n l, length l <= n ->
-  stride_aux k 0 l = map (fun t => nth (t * k) l 0) (seq 0 (cdiv (length l) k)).
+  stride_aux k 0 l = map (fun t => nth (t * k) l 0%N) (seq 0 (cdiv (length l) k)).
 Proof.
   intros Hk. induction n as [|n IH]; intros l Ln.
   - destruct l; [|simpl in Ln; lia]. unfold cdiv. simpl. rewrite Nat.div_small by lia. reflexivity.
@@ -71,7 +71,7 @@ Qed.
 
 (* the Python slice as positions start, start+k, ... below stop *)
 Definition positions_slice (l : list K) (start stop k : nat) : list K :=
-  map (fun t => nth (start + t * k) l 0) (seq 0 (cdiv (stop - start) k)).
+  map (fun t => nth (start + t * k) l 0%N) (seq 0 (cdiv (stop - start) k)).
 
 Lemma positions_nodup l start stop k : NoDup l -> 1 <= k -> stop <= length l ->
   NoDup (positions_slice l start stop k).
